@@ -172,6 +172,32 @@ ASSUMPTIONS += [
     "dataclasses, R18.7)",
 ]
 
+EXPLANATION += (
+    "  R18.50 (rules/c18_round5.py): the caller's half of R18.9.  The frame "
+    "runs a block on the very object filed under it and store_local updates "
+    "that object in place, so every value frame_base.py writes into an "
+    "attribute declared as a mapping to BlockState (`self._states[k] = v`, "
+    "setdefault, a dict display, through a local alias of the table) must be "
+    "a state made during that call: a BlockState(..) construction, "
+    "copy.deepcopy, a call of a method of BlockState that is annotated to "
+    "return a state (with_condition / merge_into - R18.9 decides that those "
+    "construct), a local whose reaching definitions are all such, or a "
+    "method of the frame / module function all of whose returns are such "
+    "(a returned parameter is judged at the call).  A parameter, a field of "
+    "the frame (`self._current_state`) or an entry of the table itself is a "
+    "violation: two blocks would share one mutable state and the join would "
+    "merge a state with itself.  Other ways of writing the table (update, "
+    "|=, a comprehension, handing the table to a function, nested "
+    "functions) are analysis errors.  Blind spots: one fresh state filed "
+    "under two keys; writes to the table from subclasses outside "
+    "frame_base.py (none today).")
+ASSUMPTIONS += [
+    "R18.50: the block->state table of the frame is declared with an "
+    "annotation `<mapping type>[.., BlockState..]` on `self.<attr>` (or in "
+    "the class body); a method called with_condition / merge_into on a "
+    "receiver other than the frame is the BlockState method of that name",
+]
+
 
 # ---------------------------------------------------------------------------
 # helpers
